@@ -277,10 +277,35 @@ def _precedence(ctx, no):
 
     out_local = None
 
+    # the local that receives the decision: a 3-tuple assigned in several places (one per way out of the match). A tuple
+    # built ahead of the match and handed on by an arm (`let replace_mode = (Some(1), None, ..); .. => replace_mode`) is
+    # the decision where it is handed on, not where it is built.
+    res_local = None
+    for l_, ds_ in prim.local_defs(no).items():
+        ds2 = [d_ for d_ in ds_ if d_[1] == "assign" and d_[0] in no.reachable()]
+        if l_ != scr and len(ds2) >= 2 and str(no.local_ty(l_)).startswith("(") and str(no.local_ty(l_)).count(",") >= 2 and \
+                all(d_[2].rv is not None and ((d_[2].rv.k == "agg" and d_[2].rv.j.get("ak") == "tuple" and len(d_[2].rv.ops) == 3) or (d_[2].rv.k == "use" and d_[2].rv.ops[0].place is not None and d_[2].rv.ops[0].place.is_local())) for d_ in ds2):
+            res_local = l_
+
     def srole(f, bb, s):
-        if s.rv is not None and s.rv.k == "agg" and s.rv.j.get("ak") == "tuple" and len(s.rv.ops) == 3 and s.lhs.is_local() and s.lhs.local != scr:
+        os_ = None
+        if res_local is not None:
+            if s.lhs is not None and s.lhs.is_local() and s.lhs.local == res_local and s.rv is not None:
+                if s.rv.k == "agg" and len(s.rv.ops) == 3:
+                    os_ = [prim.origin_of_operand(f, o).strip() for o in s.rv.ops]
+                elif s.rv.k == "use":
+                    to = prim.origin_of_operand(f, s.rv.ops[0]).strip()
+                    if to.k == "agg" and str(to.a) == "tuple" and len(to.kids) == 3:
+                        os_ = [k_.strip() for k_ in to.kids]
+                    else:
+                        return "out:?/?/?"
+        elif s.rv is not None and s.rv.k == "agg" and s.rv.j.get("ak") == "tuple" and len(s.rv.ops) == 3 and s.lhs.is_local() and s.lhs.local != scr:
             os_ = [prim.origin_of_operand(f, o).strip() for o in s.rv.ops]
+        if os_ is not None:
             def cls(o, fld):
+                # (`options.replace.as_deref()` / `.clone()`: the option as given)
+                while o.k == "call" and o.a["name"] in ("as_deref", "as_ref", "clone", "cloned", "copied") and len(o.kids) == 1:
+                    o = o.kids[0].strip()
                 if o.k == "field" and o.a == fld:
                     return "given"
                 if o.k == "agg" and str(o.a).endswith("Option::None"):
